@@ -14,7 +14,7 @@ coordinates, new ids fresh and unique, node count, well-formed forest, every new
 cable, cable length not increased, soma / connectors / tags re-attached to a nearest new node
 (`c13.nearest`, ties accepted as a set).
 
-Second pass: the as-written model `downsampleG` (`c13.dsg`: float factors, `preserve_nodes=None` vs list, soma list, the
+Second pass: the as-written model `downsampleG` (`c13.dsg`: float factors (rounded down), `preserve_nodes=None` vs list, soma list, the
 `factor <= 1` guard), soma on slab nodes / node id 0 as slab / ids not in the table / NeuronList inputs / array somas;
 resampling: the Lean checker `attachOKB` (`c13.attach`, sound by `Props.C13.attachCheck_sound`) on navis' re-attached
 soma + connectors + tags together, compared with the model `reattachG` when there is no tie, exact-tie inputs, numeric and
@@ -107,7 +107,7 @@ def edge_len(a, b):
 # downsampling
 # ------------------------------------------------------------------------------------------------
 def _factor(case):
-    """(python value handed to navis, rational string for the model, ceil as used by the walk / 'inf')"""
+    """(python value handed to navis, rational string for the model, floor as used by the walk / 'inf')"""
     f = case['f']
     if f == 'inf':
         return float('inf'), 'inf', 'inf'
@@ -121,7 +121,7 @@ def _factor(case):
         v = float(q)
     else:
         v = int(q)
-    return v, frs(q), math.ceil(q)
+    return v, frs(q), math.floor(q)
 
 
 def case_ds(ctx, case, be=None, x=None):
@@ -177,7 +177,7 @@ def case_ds(ctx, case, be=None, x=None):
     mg, _, mh = out.partition(' # ')
     ctx.corr(G.topo_neuron(y), mg, f'{what}: node table vs the as-written Lean model `downsampleG`', case)
     ctx.corr(mg, mh, f'{what}: as-written model vs `downsample` (theorem gen_downsample_is_model)', case)
-    # (2) the hand-written model through the shared op language (integer factor = ceil)
+    # (2) the hand-written model through the shared op language (integer factor = floor: navis rounds a finite factor down)
     model = ctx.ask(f"f.ops ds={fc}={','.join(map(str, mpres))} | {wire}")
     ctx.corr(G.topo_neuron(y), model, f'{what}: node table vs Lean `downsample`', case)
     # property oracle on navis' own output (Lean checker)
@@ -188,15 +188,17 @@ def case_ds(ctx, case, be=None, x=None):
     if chk != '1':
         pm1 = parent_map(y)
         miss = [i for i in fix if i not in pm1]
+        sig = None
         det = f'fix points dropped: {miss}' if miss else 'a kept node is not linked to its nearest kept ancestor within the factor, or a row changed'
-        ctx.oracle(False, f'{what}: {det}', case)
+        if not miss and f != 'inf' and Fr(f).denominator != 1 and how != 'method_default':
+            # the statement bounds the gap by `factor` itself: would the table pass with ceil(factor)?  Then the factor was not rounded down
+            loose = ctx.ask(f"c13.dscheck {math.ceil(Fr(f))} {','.join(map(str, fix))} | {wire} | {G.wire_neuron(y)}")
+            if loose == '1':
+                det = f'{math.ceil(Fr(f))} consecutive nodes dropped between a kept node and its new parent, more than the factor {float(Fr(f))}'
+                sig = 'downsample_neuron/non-integer-factor/gap-is-ceil(factor)'
+        ctx.oracle(False, f'{what}: {det}', case, signature=sig)
     else:
         ctx.oracle(True, what, case)
-    if f != 'inf' and Fr(f).denominator != 1 and how != 'method_default':
-        # the statement bounds the gap by `factor` itself; the loop `while i < factor` drops up to ceil(factor)
-        strict = ctx.ask(f"c13.dscheck {math.floor(Fr(f))} {','.join(map(str, fix))} | {wire} | {G.wire_neuron(y)}")
-        ctx.oracle(strict == '1', f'{what}: {fc} consecutive nodes dropped between a kept node and its new parent, more than the factor {float(Fr(f))}', case,
-                   signature='downsample_neuron/non-integer-factor/gap-is-ceil(factor)')
     c1 = coords_of(y)
     ctx.oracle(all(i in c0 and c0[i] == c1[i] for i in c1), f'{what}: a kept node changed id/coordinates/radius', case)
     w = ctx.ask('f.wf ' + G.wire_neuron(y))
